@@ -200,9 +200,13 @@ Enc(v) ==
            \o <<RBrace>>
 
 \* func.go ------------------------------------------------------------------
-FuncToJSON(v) == VStr(Enc(v))                                   \* funcToJSON; @json
-FuncToString(v) == IF v.t = "str" THEN v ELSE FuncToJSON(v)            \* funcToString; @text; "\(...)"
-Interp(pre, v, post, json) == VStr(pre \o (IF json THEN FuncToJSON(v) ELSE FuncToString(v)).b \o post)   \* @json "pre\(.)post" etc.
+\* (the ...Of forms take the text e = Enc(v) already computed)
+ToJSONOf(e) == VStr(e)
+ToStringOf(v, e) == IF v.t = "str" THEN v ELSE VStr(e)
+InterpOf(pre, s, post) == VStr(pre \o s.b \o post)
+FuncToJSON(v) == ToJSONOf(Enc(v))                            \* funcToJSON; @json
+FuncToString(v) == ToStringOf(v, Enc(v))                     \* funcToString; @text; "\(...)"
+Interp(pre, v, post, json) == InterpOf(pre, IF json THEN FuncToJSON(v) ELSE FuncToString(v), post)   \* @json "pre\(.)post" etc.
 
 \* ---------------------------------------------------------------------------
 \* cli/color.go
